@@ -435,8 +435,17 @@ def backward_cores(run, m, F, E, L):
                     else:
                         und.append('resume step not decided')
                 found = [c for c in curs if c[0] != start[0][0] and s2.is_eq0(c[2].off - mt[1]) is True]
+                # ... or remembered as an index (match - c_str()) in a carried integer
+                ints = [(nm, v, e.get(nm)) for nm, v in b.items() if isinstance(v, IntV) and isinstance(e.get(nm), IntV)]
+                found += [c for c in ints if I.as_s(s2, c[2]) is not None and s2.is_eq0(I.as_s(s2, c[2]) - (mt[1] - sto.off)) is True]
                 if not found:
-                    p3.append('the match of an iteration is not remembered as the latest occurrence')
+                    # a finding only if nothing the loop carries changes with the match besides the scan cursor itself
+                    others = [c for c in curs if c[0] != start[0][0] and not (isinstance(c[1], PtrV) and s2.is_eq0(c[2].off - c[1].off) is True)]
+                    others += [c for c in ints if I.as_s(s2, c[2]) is None or I.as_s(s2, c[1]) is None or s2.is_eq0(I.as_s(s2, c[2]) - I.as_s(s2, c[1])) is not True]
+                    if not others:
+                        p3.append('the match of an iteration is not remembered: nothing but the scan cursor changes when an occurrence is found')
+                    else:
+                        und.append('how the match of an iteration is remembered is not recognised')
             elif o.kind == 'ret':
                 nr += 1
                 v = o.val
